@@ -1,6 +1,7 @@
 import VaxisModel.Props.C04
 import VaxisModel.Props.C10Shutdown
 import VaxisModel.Lemmas.ConcPersist
+import VaxisModel.Gen.Conc
 
 /-!
 # C04 × C10 — every exit path reaches its end on every schedule, and what it writes restores the terminal
@@ -39,5 +40,44 @@ theorem exit_paths_complete_and_restore :
     (∀ (e : Env) (w : WSt), (interp e 65 Gen.Modes.inputLoopRecover w).wire = (closeW e false w).wire) :=
   ⟨fun s s1 s' a ha hinv h1 ls hl hr hrest => exit_path_completes s s1 s' a ha hinv h1 ls hl hr hrest,
    fun e w => (C04.signal_path_is_close e w).1, fun e w => (C04.panic_path_is_close e w).1⟩
+
+/-! ### Every exit path, at every point of every session (round 4)
+
+The exit paths of the property text are `Close`, a termination signal (the kill arm of the input
+goroutine's `select`: SIGABRT, SIGBUS, SIGFPE, SIGILL, SIGINT, SIGQUIT, SIGSEGV, SIGTERM — what
+`setupSignals` registers; SIGHUP is not registered: the terminal is gone then) and a panic inside the
+input goroutine (its deferred `recover`).  A panic of the APPLICATION's goroutine is not an exit path
+of the text ("when the library's own input goroutine panics"): the library cannot intercept it, the
+application's own `defer vx.Close()` is a `Close`. -/
+
+open VaxisModel.Lemmas.C04Session VaxisModel.Lemmas.C04Sym VaxisModel.Spec.ModeTerm in
+/-- **At every point of every session — running or suspended, after any frames, cursor requests,
+`SetAppID` calls and Suspend/Resume cycles — each of the three exit paths restores the terminal**: what
+`Close`, the kill-signal arm and the recover handler of the input goroutine (statement lists
+regenerated from `openTty`) write from the writer state the session has reached, run on the mode
+terminal the session has reached, leaves everything at its prior value; for every capability set and
+all run-time values.  (`path` ranges over the three lists; that each path also RUNS TO ITS END on every
+schedule is `exit_path_completes`.) -/
+theorem every_exit_restores_at_every_point (m : Nat) (hm : m < 512) (kittyFlags userCursorStyle k0 : Nat) (appId : String)
+    (hq : SettableId appId) (ops : List Op) (hok : ∀ op ∈ ops, op.ok) :
+    let e := envV m kittyFlags userCursorStyle appId
+    let t0 := t0V m e k0
+    let s := runOps e (start e t0) ops
+    restored t0 (run s.t (closeW e false (clearWire s.w)).wire) = true ∧
+    restored t0 (run s.t (interp e 65 Gen.Modes.inputLoopSignalArm (clearWire s.w)).wire) = true ∧
+    restored t0 (run s.t (interp e 65 Gen.Modes.inputLoopRecover (clearWire s.w)).wire) = true := by
+  intro e t0 s
+  have h := (C04.balanced m hm kittyFlags userCursorStyle k0 appId hq ops hok).1
+  have h' : restored t0 (run s.t (closeW e false (clearWire s.w)).wire) = true := h
+  refine ⟨h', ?_, ?_⟩
+  · rw [(C04.signal_path_is_close e (clearWire s.w)).1]; exact h'
+  · rw [(C04.panic_path_is_close e (clearWire s.w)).1]; exact h'
+
+/-- The spinner widget's goroutine — the other goroutine the library starts that can panic in code of
+the library — has the same deferred handler: `recover` → `m.vx.Close()` → `panic(err)` (regenerated
+skeleton of the goroutine in `Model.start`), so its panic path is `Close` as well. -/
+theorem spinner_panic_path_is_close :
+    Gen.Conc.shape_spinnerLoop.take 6 = ["defer func {", "if err := recover(); err != nil {", "m.vx.Close()", "panic(err)", "}", "}"] := by
+  decide
 
 end VaxisModel.Props.C04Exit
